@@ -562,5 +562,18 @@ example : (run {} [.alloc, .alloc, .alloc, .destroy]).1.freed = [1, 0] := by dec
 example : (step { tables := 2, size := 4, used := 3, retired := [], freed := [0], snaps := [(7, 0, 1)] } (.index 7 0)).2
     = .uaf := by decide
 
+/-- The table ledger refines the table bookkeeping of the sequential arena model: one `alloc` step moves
+(`size`, `used`) exactly as `Seq.allocateBuffer` moves (`buffersSize`, `buffersPos`), so the two models of
+`allocateBuffer()` cannot drift apart. -/
+theorem C37_tables_refine_seq (s : St) (a : Seq.Arena) (hal : s.alive = true)
+    (hs : s.size = a.buffersSize) (hu : s.used = a.buffersPos) :
+    (step s .alloc).1.size = (Seq.allocateBuffer a).buffersSize ∧
+    (step s .alloc).1.used = (Seq.allocateBuffer a).buffersPos := by
+  by_cases h : s.used < s.size
+  · have h' : a.buffersPos < a.buffersSize := by omega
+    simp [step, Seq.allocateBuffer, hal, h', hs, hu]
+  · have h' : ¬ a.buffersPos < a.buffersSize := by omega
+    simp [step, Seq.allocateBuffer, hal, h', hs, hu]
+
 end Tables
 end Dispenso.Arena
